@@ -10,6 +10,122 @@ import io_common as IO
 
 ROW = re.compile(r"^(\d+)\|(.*)\|(.*)\|([01])([01])([01])$", re.S)
 
+# ---- the printer's text (C13-F2 / C13-F3).  Mirror of coq/io/IoShow.v: printable_ranges, exact_charset, linebreaks --
+# compared with the Coq terms and with str.isprintable (this interpreter and the one that runs skops) on every run.
+PRINTABLE_RANGES = [(32, 126), (161, 172), (174, 591), (880, 887), (890, 895), (900, 906), (908, 908), (910, 929), (931, 1023),
+                    (8208, 8231), (8240, 8286), (8592, 8703), (9472, 9599), (19968, 40869), (65532, 65533), (128512, 128591)]
+EXACT_CHARSET = [(0, 591), (880, 887), (890, 895), (900, 906), (908, 908), (910, 929), (931, 1023), (5760, 5760), (8192, 8292),
+                 (8294, 8303), (8592, 8703), (9472, 9599), (12288, 12288), (19968, 40869), (55296, 63743), (65279, 65279),
+                 (65529, 65535), (128512, 128591), (917505, 917505), (917536, 917631), (983040, 1114111)]
+LINEBREAKS = [10, 11, 12, 13, 28, 29, 30, 133, 8232, 8233]          # what str.splitlines splits on
+LB_RE = re.compile("[" + "".join(re.escape(chr(c)) for c in LINEBREAKS) + "]")
+
+
+def in_ranges(c, rs):
+    return any(a <= c <= b for a, b in rs)
+
+
+def in_charset(text):
+    return all(in_ranges(ord(ch), EXACT_CHARSET) for ch in text)
+
+
+def model_escape(text):
+    """IoShow.escape_text: what _get_node_text must show for `text` (by the model's table, not by str.isprintable)"""
+    out = []
+    for ch in text:
+        c = ord(ch)
+        if in_ranges(c, PRINTABLE_RANGES):
+            out.append(ch)
+        elif c in (9, 10, 13):
+            out.append({9: "\\t", 10: "\\n", 13: "\\r"}[c])
+        elif c < 256:
+            out.append("\\x%02x" % c)
+        elif c < 65536:
+            out.append("\\u%04x" % c)
+        else:
+            out.append("\\U%08x" % c)
+    return "".join(out)
+
+
+def split_lines(text):
+    """the lines a reader (or str.splitlines) sees: split at EVERY line-break character, not only at the printer's own \\n"""
+    return LB_RE.split(text)
+
+
+def strings_of(j):
+    if isinstance(j, str):
+        yield j
+    elif isinstance(j, dict):
+        for k, v in j.items():
+            yield k
+            yield from strings_of(v)
+    elif isinstance(j, list):
+        for v in j:
+            yield from strings_of(v)
+
+
+def check_tables(R):
+    """the three copies of the isprintable table agree: Coq model, this mirror, str.isprintable on the exact charset"""
+    ok = True
+    out = R.model_eval("PrintTables", "From Skv Require Import IoShow.\nEval vm_compute in (printable_ranges, exact_charset, linebreaks).\n")
+    groups = [[int(x) for x in re.findall(r"\d+", g)] for g in re.findall(r"\[(.*?)\]", out, flags=re.S)[:3]]
+    want = [[x for ab in PRINTABLE_RANGES for x in ab], [x for ab in EXACT_CHARSET for x in ab], LINEBREAKS]
+    if groups != want:
+        R.obligation_broken("C13 isprintable table", f"harness/props/c13.py mirrors coq/io/IoShow.v no longer: Coq prints {groups!r}")
+        ok = False
+    bad = [c for a, b in EXACT_CHARSET for c in range(a, b + 1) if chr(c).isprintable() != in_ranges(c, PRINTABLE_RANGES)]
+    p = C.run_impl("impl_io.py", input_obj={"mode": "charset", "cases": [{"printable": PRINTABLE_RANGES, "charset": EXACT_CHARSET}]})
+    if p.returncode != 0:
+        raise RuntimeError("impl_io charset failed: " + p.stderr.decode(errors="replace")[-800:])
+    rep = json.loads(p.stdout)[0]
+    R.notes["isprintable_table"] = {"exact_on_code_points": rep["checked"], "implementation_python": rep["python"],
+                                    "implementation_unidata": rep["unidata"], "disagreements": len(rep["disagree"]) + len(bad)}
+    if bad or rep["disagree"] or rep["printable_outside_charset"]:
+        R.obligation_broken("C13 isprintable table", f"the model's isprintable is not str.isprintable on its exact charset: code points {(bad or rep['disagree'])[:20]} "
+                                                      f"(unicodedata {rep['unidata']}); printable ranges outside the charset: {rep['printable_outside_charset']}")
+        ok = False
+    if any(in_ranges(c, PRINTABLE_RANGES) or not in_ranges(c, EXACT_CHARSET) for c in LINEBREAKS + [0xD800, 0xDBFF, 0xDC00, 0xDFFF]):
+        R.obligation_broken("C13 isprintable table", "a line break or a surrogate is printable / outside the exact charset")
+        ok = False
+    return ok
+
+
+def rows_of(rec):
+    """the row stream of a record: field by field when the runner gave it so (keys may hold line breaks and bars)"""
+    if not rec["rows"].startswith("ok:"):
+        return None
+    if rec.get("rowlist") is not None:
+        return [{"level": r[0], "key": r[1], "val": r[2], "self": r[3], "safe": r[4], "last": r[5]} for r in rec["rowlist"]]
+    return parse_rows(rec["rows"][3:])
+
+
+def row_text(r):
+    return f"{r['key']}: {r['val']}" + ("" if r["self"] else " [UNSAFE]")
+
+
+def text_oracle(lines, kept, show):
+    """one line per row kept, each line the (escaped) text of its row, nothing unprintable, encodable as UTF-8"""
+    out = []
+    if len(lines) != len(kept):
+        out.append(("printed-rows-vs-ancestors", f"{len(lines)} lines printed, {len(kept)} rows are visible together with all their ancestors (show={show})"))
+        return out
+    for ln, r in zip(lines, kept):
+        txt = row_text(r)
+        if in_charset(txt) and not ln.endswith(model_escape(txt)):
+            out.append(("tag-mismatch", f"line {ln!r} vs row {r['key']!r}: {r['val']!r} is_self_safe={r['self']}"))
+            break
+    for ln in lines:
+        try:
+            ln.encode("utf-8")
+        except UnicodeEncodeError:
+            out.append(("line-not-encodable", f"line {ln!r} cannot be encoded as UTF-8"))
+            break
+        hit = [ch for ch in ln if in_ranges(ord(ch), EXACT_CHARSET) and not in_ranges(ord(ch), PRINTABLE_RANGES)]
+        if hit:
+            out.append(("unprintable-character-printed", f"line {ln!r} holds the unprintable character U+{ord(hit[0]):04X}"))
+            break
+    return out
+
 
 def parse_rows(text):
     rows = []
@@ -39,7 +155,7 @@ def oracle(case, rec):
     """The property's statement on the implementation's own output."""
     out = []
     if rec["rows"].startswith("ok:"):
-        rows = parse_rows(rec["rows"][3:])
+        rows = rows_of(rec)
         if rows:
             if rows[0]["level"] != 0:
                 out.append(("root-level", "first row is not at level 0"))
@@ -62,24 +178,19 @@ def oracle(case, rec):
                 if rows[0]["safe"] == refused:
                     out.append(("root-verdict", f"root row safe={rows[0]['safe']} but load with trusted={rec['T']} gives {rec['load'][:80]}"))
     if rec["rows"].startswith("ok:"):
-        rows = parse_rows(rec["rows"][3:])
+        rows = rows_of(rec)
         preorder = bool(rows) and all(b["level"] <= a["level"] + 1 for a, b in zip(rows, rows[1:]))
         if preorder and not rec["vis"].startswith("ok:"):
             # the row generator ran to the end and yielded a pre-order walk: the default sink must complete in every show mode
-            # (coq/props/C13.v: C13_preorder_never_raises; before the repair of D24 show='trusted' raised ValueError here)
+            # (coq/props/C13.v: C13_preorder_never_raises; before the repair of D24 show='trusted' raised ValueError here;
+            # before the repair of C13-F2 a lone surrogate in a key made print raise UnicodeEncodeError)
             out.append(("raises-on-preorder-stream", f"row generator completed ({len(rows)} rows, pre-order) but visualize(show={case['show']!r}) gave {rec['vis'][:60]}"))
         if preorder and rec["vis"].startswith("ok:"):
             # what must be printed, stated on the tree and not on _traverse_tree's loop: the root row, and every other row the
-            # filter admits all of whose ancestors below the root the filter admits too (C13_hidden_subtrees_cut)
+            # filter admits all of whose ancestors below the root the filter admits too (C13_hidden_subtrees_cut) -- ONE line
+            # each (C13_one_line_per_row), whatever characters the key and the type name hold
             kept = kept_rows(rows, case["show"])
-            lines = rec["vis"][3:].split("\n")
-            if len(lines) != len(kept):
-                out.append(("printed-rows-vs-ancestors", f"{len(lines)} lines printed, {len(kept)} rows are visible together with all their ancestors (show={case['show']})"))
-            else:
-                for ln, r in zip(lines, kept):
-                    if not ln.endswith(f"{r['key']}: {r['val']}" + ("" if r["self"] else " [UNSAFE]")):
-                        out.append(("tag-mismatch", f"line {ln!r} vs row {r['key']}: {r['val']} is_self_safe={r['self']}"))
-                        break
+            out.extend(text_oracle(split_lines(rec["vis"][3:]), kept, case["show"]))
     return out
 
 
@@ -122,6 +233,33 @@ def PROBE_CASES(snap=None):
     return out
 
 
+def PRINT_CASES():
+    """hand-made archives for the printer (replayed on every run): the former witnesses of C13-F2 (lone surrogate in a key) and
+    C13-F3 (line break in a key forging a row) as schemas, a type name holding a line break and one holding ESC / NBSP / a
+    surrogate, every escape form in one key, an untrusted row (the tag follows the escaped name)"""
+    def js(v):
+        return {"__class__": "int", "__module__": "builtins", "__loader__": "JsonNode", "content": json.dumps(v), "is_json": True}
+
+    def dct(pairs, nid, **kw):
+        kt = {"__class__": "list", "__module__": "builtins", "__loader__": "ListNode", "__id__": nid + 1,
+              "content": [{"__class__": "str", "__module__": "builtins", "__loader__": "TypeNode", "__id__": 7} for _ in pairs]}
+        d = {"__class__": "dict", "__module__": "builtins", "__loader__": "DictNode", "__id__": nid, "content": dict(pairs), "key_types": kt}
+        d.update(kw)
+        return d
+    every = "\t\n\r\x0b\x1b\x7f\x85\xa0\xad\u2028\ud800\ufeff\U000e0001 \\ \u00e9\u03bb\u65e5\u2502\U0001f600"
+    schemas = [dct([("\ud800", js(1))], 1), dct([("a\nroot: builtins.dict", js(1)), ("b", js(1))], 1),
+               dct([("k", {"__class__": "C\nroot: builtins.dict", "__module__": "m", "__loader__": "TypeNode", "__id__": 5})], 1),
+               dct([("k", {"__class__": "y\ud800", "__module__": "x\x1b[2J\xa0", "__loader__": "ObjectNode", "__id__": 5, "content": dct([("at\u2028tr", js(2))], 10)})], 1),
+               dct([(every, js(1)), ("plain", js(2))], 1)]
+    out = []
+    for sch in schemas:
+        sch["protocol"] = 2
+        sch["_skops_version"] = "0.0"
+        for show in ("all", "untrusted", "trusted"):
+            out.append({"schema": sch, "members": [], "tspec": "none", "tseed": 0, "show": show, "malformed": False, "wellformed": True, "notes": ["print-probe"]})
+    return out
+
+
 def run(R, only_cases=None):
     snap = R.snapshot()
     R.trusted_base += ["Coq 8.16.1 kernel + vm_compute", "harness/snapshot.py (SKIPPED_TYPES, class probes)",
@@ -131,15 +269,30 @@ def run(R, only_cases=None):
     if snap is None:
         return
     R.prove("C13")
+    check_tables(R)
     rnd = random.Random(R.seed)
     n = 400 if R.tier == "quick" else 4000
-    cases = only_cases or (PROBE_CASES(snap) + [G.gen_case(rnd) for _ in range(n)])
+    # mostly-valid and malformed archives; a third of them with unprintable characters (line breaks, controls, invisible
+    # spaces, lone surrogates, ...) in dict keys, attribute names and type names
+    cases = only_cases or (PROBE_CASES(snap) + PRINT_CASES() + [G.gen_case(rnd, nasty=(0.5 if i % 3 == 0 else 0.0)) for i in range(n)])
+    # a text outside the charset on which the model's isprintable is exact is not compared (the generators stay inside)
+    inside = [c for c in cases if all(in_charset(x) for x in strings_of(c["schema"]))]
+    if len(inside) != len(cases):
+        R.count("dropped:outside-exact-charset", len(cases) - len(inside))
+        cases = inside
     recs, bad, _ = IO.run_batch(R, cases, aspects=("gut", "audit", "vis", "rows"), tag="c13")
     IO.report_disagreements(R, cases, recs, bad, "C13")
     for c, r in zip(cases, recs):
         R.count("show:" + c["show"])
         R.count("vis:" + r["vis"].split(":")[0] + (":" + r["vis"].split(":")[1] if r["vis"].startswith("err") else ""))
-        prs = parse_rows(r["rows"][3:]) if r["rows"].startswith("ok:") else None
+        prs = rows_of(r)
+        if prs and any(not in_ranges(ord(ch), PRINTABLE_RANGES) for x in prs for ch in x["key"] + x["val"]):
+            # non-vacuity of the C13-F2 / C13-F3 repair on generated archives: a row whose text needs the escape
+            R.count("row-text-needs-escape:" + r["vis"].split(":")[0])
+            if any(LB_RE.search(x["key"] + x["val"]) for x in prs):
+                R.count("row-text-holds-line-break:" + r["vis"].split(":")[0])
+            if any("\ud800" <= ch <= "\udfff" for x in prs for ch in x["key"] + x["val"]):
+                R.count("row-text-holds-surrogate:" + r["vis"].split(":")[0])
         if prs and hidden_parent_shown_child(prs, c["show"]):
             # non-vacuity of the D24 repair on generated archives: the subtree of the hidden row is skipped (text vs model above)
             R.count("hidden-parent-shown-child:" + c["show"] + ":" + r["vis"].split(":")[0])
@@ -153,10 +306,15 @@ def run(R, only_cases=None):
     R.notes["uncovered"] = IO.uncovered_kinds(R, snap)
     if only_cases is None:
         total_on_dumps(R, rnd)
-    R.notes["rule"] = ("(a) generated schemas (all loaders, valid + malformed, shared/cyclic ids) x trusted spec x show mode: default-sink text and raw rows vs model; "
+        print_on_dumps(R, rnd)
+    R.notes["rule"] = ("(a) generated schemas (all loaders, valid + malformed, shared/cyclic ids; a third with line breaks, controls, invisible spaces, lone "
+                       "surrogates in keys / attribute names / type names) x trusted spec x show mode: default-sink text (UTF-8 stream over bytes) and raw rows vs model; "
                        "(b) real dumps of generated values x 3 trust settings x 3 show modes must ALL complete (every dumped archive, nine calls); "
-                       "(c) on the implementation's own output: a completed pre-order row stream never makes the default sink raise, and the lines printed are the rows "
-                       "admitted by the filter together with all their ancestors; non-trivial = inspection succeeded")
+                       "(c) on the implementation's own output: a completed pre-order row stream never makes the default sink raise, and the lines printed -- split "
+                       "at every character str.splitlines splits on -- are the rows admitted by the filter together with all their ancestors, one line each, "
+                       "each ending with the escaped text of its row, no unprintable character, encodable as UTF-8; "
+                       "(d) real dumps of values with such keys / attribute names (the former witnesses of C13-F2 and C13-F3 first): nine calls each, same oracle, "
+                       "and the printed text = the model's printer run on the implementation's own kept rows; non-trivial = inspection succeeded")
 
 
 def has_rank0_objarray(spec):
@@ -228,7 +386,118 @@ def total_on_dumps(R, rnd):
     R.notes["visualize_calls_on_real_dumps"] = nvis
 
 
+# the former witnesses of C13-F2 / C13-F3 (repaired: replayed on every run) and a few fixed values around them
+W_F2 = ["dict", [[["str", "\ud800"], ["int", 1]]]]
+W_F3 = ["dict", [[["str", "a\nroot: builtins.dict"], ["int", 1]], [["str", "b"], ["int", 1]]]]
+PRINT_SPECS = [W_F2, W_F3,
+               ["dict", [[["str", "x\r\ny"], ["list", [["int", 1]]]], [["str", "\u2028"], ["int", 2]], [["str", "\x1b[31m"], ["int", 3]], [["str", "no\xa0break"], ["none"]]]],
+               ["list", [["userobj", "Plain", [["at\ntr", ["int", 1]], ["\udfff", ["dict", [[["str", "\x85\x0b\x0c\x1c\x1d\x1e\u2029"], ["int", 1]]]]]]]]],
+               ["odict", [[["str", "\\n"], ["int", 1]], [["str", "\n"], ["int", 2]], [["str", "caf\u00e9 \u65e5\u672c \U0001f600"], ["int", 3]], [["str", "\U000e0001\ufeff\uffff"], ["int", 4]]]]]
+
+
+def printer_vs_model(R, items):
+    """items: (kept rows, printed text).  The model's printer (IoShow.print_tree) on the implementation's own kept rows must
+    give the implementation's text.  Returns the indices that differ (with the model's text)."""
+    def crow(r):
+        return (f"{{| r_level := {r['level']}; r_key := {C.cstr(r['key'])}; r_val := {C.cstr(r['val'])}; r_self_safe := {C.cbool(r['self'])}; "
+                f"r_safe := {C.cbool(r['safe'])}; r_last := {C.cbool(r['last'])} |}}")
+    bad, files, index = [], [], []
+    for s0 in range(0, len(items), 400):
+        chunk = items[s0:s0 + 400]
+        body = ["From Skv Require Import Walk IoShow.",
+                "Eval vm_compute in mismatches (fun rs : list row => print_tree (s \"[UNSAFE]\") rs) "
+                + C.clist((f"({C.clist((crow(r) for r in rows), 'row')}, {C.cstr(text)})" for rows, text in chunk), "(list row * pstr)") + "."]
+        f = R.gen / f"Cases_c13print_{s0}.v"
+        f.write_text("\n".join(body) + "\n")
+        files.append(f)
+        index.append(s0)
+    outs = C.coqc_many(files, R.gen, timeout=900)
+    for f, s0 in zip(files, index):
+        res = IO.parse_all_mismatches(outs[f])
+        if len(res) != 1:
+            raise RuntimeError(f"{f.name}: expected one result list: {outs[f][-300:]}")
+        bad += [(s0 + k, model) for k, model in res[0]]
+    return bad
+
+
+def print_on_dumps(R, rnd, only=None):
+    """(d) the text on real dumps of values whose dict keys / attribute names hold unprintable characters"""
+    n = 60 if R.tier == "quick" else 600
+    specs = only or (PRINT_SPECS + [GV.gen_value(rnd, supported=(i % 2 == 0), nasty=0.4) for i in range(n)])
+    shards = 8
+    from concurrent.futures import ThreadPoolExecutor
+
+    def one(chunk):
+        if not chunk:
+            return []
+        p = C.run_impl("impl_io.py", input_obj={"mode": "dumpvis", "cases": chunk}, timeout=1200)
+        if p.returncode != 0:
+            raise RuntimeError("impl_io dumpvis failed: " + p.stderr.decode(errors="replace")[-1200:])
+        return json.loads(p.stdout)
+    chunks = [specs[i::shards] for i in range(shards)]
+    with ThreadPoolExecutor(shards) as ex:
+        outs = list(ex.map(one, chunks))
+    items, where, ncalls = [], [], 0
+    for sh, o in enumerate(outs):
+        for k, rec in enumerate(o):
+            spec = chunks[sh][k]
+            witness = "C13-F2" if spec == W_F2 else ("C13-F3" if spec == W_F3 else None)
+            R.case({"dump-print": spec}, nontrivial=rec.get("dump") == "ok")
+            if rec.get("dump") != "ok":
+                R.count("dumpprint:not-dumped:" + str(rec.get("dump") or rec.get("build")))
+                if witness:
+                    R.obligation_broken("C13 print probes", f"the former witness of {witness} {spec!r} is no longer dumped: {rec}")
+                continue
+            if sorted(rec["combos"]) != NINE:
+                R.obligation_broken("C13 print_on_dumps", f"not all nine (show x trusted) combinations attempted for {spec!r}")
+            for key in NINE:
+                show, tname = key.split("/")
+                cb, rows = rec["combos"].get(key, {"vis": "missing"}), rec["rows"].get(tname)
+                ncalls += 1
+                rep = {"print": True, "spec": spec, "show": show, "trusted": tname}
+                if cb["vis"] != "ok":
+                    exc = cb["vis"].split(":")[1] if ":" in cb["vis"] else cb["vis"]
+                    R.count("dumpprint:raises:" + exc)
+                    R.violation({"kind": "visualize-raises-on-dump", "exc": exc, "why": "text-not-encodable" if exc == "UnicodeEncodeError" else "other", "witness": witness},
+                                f"visualize(dumps(obj), show={show!r}, trusted={tname}) raised {cb['vis'][7:]} in the default sink (stdout = UTF-8 stream) for {spec!r}", rep)
+                    continue
+                R.count("dumpprint:ok")
+                if not isinstance(rows, list):
+                    R.violation({"kind": "row-generator-raises-on-dump", "witness": witness}, f"custom sink: {rows} for {spec!r}", rep)
+                    continue
+                rws = [{"level": r[0], "key": r[1], "val": r[2], "self": r[3], "safe": r[4], "last": r[5]} for r in rows]
+                kept = kept_rows(rws, show)
+                if any(not in_ranges(ord(ch), PRINTABLE_RANGES) for x in kept for ch in x["key"] + x["val"]):
+                    R.count("dumpprint:row-text-needs-escape")
+                for kind, what in text_oracle(split_lines(cb["text"]), kept, show):
+                    R.violation({"kind": kind, "on": "dump", "witness": witness}, f"visualize(dumps(obj), show={show!r}, trusted={tname}) for {spec!r}: {what}", rep)
+                if all(in_charset(row_text(x)) for x in kept):
+                    items.append((kept, cb["text"]))
+                    where.append(rep)
+                else:
+                    R.count("dumpprint:outside-exact-charset")
+    # the same text from the model's printer (deduplicated: the nine calls often print the same tree)
+    uniq, first = [], {}
+    for it, w in zip(items, where):
+        h = C.sha([it[0], it[1]])
+        if h not in first:
+            first[h] = w
+            uniq.append(it)
+    R.notes["print_calls_on_real_dumps"] = ncalls
+    R.notes["printed_texts_compared_with_model"] = len(uniq)
+    for i, model in printer_vs_model(R, uniq):
+        R.disagreements += 1
+        R.obligation_broken("correspondence C13/printer-on-dumps",
+                            json.dumps({"rows": uniq[i][0], "implementation": uniq[i][1], "model": model})[:2500])
+
+
 def replay(R, rep):
+    if rep["replay"].get("print"):
+        R.snapshot()
+        R.prove("C13")
+        check_tables(R)
+        print_on_dumps(R, random.Random(R.seed), only=[rep["replay"]["spec"]])
+        return
     if "case" in rep["replay"]:
         c = dict(rep["replay"]["case"])
         c.update(T=rep["replay"]["T"], tspec="explicit", tseed=0)
